@@ -119,73 +119,52 @@ Qed.
 Lemma with_enabled_id s : with_enabled s (enabled s) = s.
 Proof. destruct s; reflexivity. Qed.
 
-Lemma nth_upd {A} : forall (l : list A) i j v d, (i < length l)%nat ->
-  nth j (upd i v l) d = if Nat.eqb j i then v else nth j l d.
-Proof.
-  induction l as [|x l IH]; intros i j v d Hi; [cbn in Hi; lia|].
-  destruct i as [|i]; destruct j as [|j]; cbn [upd nth Nat.eqb]; try reflexivity. apply IH. cbn in Hi. lia.
-Qed.
-Lemma length_upd {A} : forall (l : list A) i v, length (upd i v l) = length l.
-Proof. induction l as [|x l IH]; intros [|i] v; cbn [upd length]; auto. Qed.
-Lemma Forall_upd {A} (P : A -> Prop) : forall l i v, Forall P l -> P v -> Forall P (upd i v l).
-Proof.
-  induction l as [|x l IH]; intros [|i] v Hl Hv; cbn [upd]; auto; inversion Hl; subst; constructor; auto.
-Qed.
+Lemma task_put_same m t s : task_of (put_task m t s) t = s.
+Proof. unfold task_of, put_task. cbn [m_tasks m_enabled]. rewrite Nat.eqb_refl. apply with_enabled_id. Qed.
+Lemma tasks_put_other m t t' s : t' <> t -> m_tasks (put_task m t s) t' = m_tasks m t'.
+Proof. intro H. unfold put_task. cbn [m_tasks]. apply Nat.eqb_neq in H. rewrite H. reflexivity. Qed.
 
-Definition all_on (m : mst) : Prop := m_enabled m = true /\ Forall (fun s => enabled s = true) (m_tasks m).
+Definition all_on (m : mst) : Prop := m_enabled m = true /\ forall t, enabled (m_tasks m t) = true.
 
 (* ------------------------------------------------------------------ independence of the tasks *)
-Lemma std_independent c : no_switch_all c -> forall trs m t,
-  all_on m -> Forall (fun p => (fst p < length (m_tasks m))%nat) trs -> (t < length (m_tasks m))%nat ->
+Lemma std_independent c : no_switch_all c -> forall trs m t, all_on m ->
   of_task t (snd (m_run (m_std_step c) m trs))
-  = snd (run_steps (std_step c) (nth t (m_tasks m) (st0 c)) (of_task t trs)).
+  = snd (run_steps (std_step c) (m_tasks m t) (of_task t trs)).
 Proof.
-  intro Hns. induction trs as [|[t' r] trs IH]; intros m t (He & Hall) Hidx Ht; [reflexivity|].
-  inversion Hidx as [|? ? Ht' Hidx']; subst. cbn [fst] in Ht'.
+  intro Hns. induction trs as [|[t' r] trs IH]; intros m t (He & Hall); [reflexivity|].
   cbn [m_run]. unfold m_std_step at 1.
-  assert (Etask : task_of c m t' = nth t' (m_tasks m) (st0 c)).
-  { unfold task_of. rewrite He. rewrite Forall_forall in Hall.
-    rewrite <- (Hall (nth t' (m_tasks m) (st0 c)) (nth_In _ _ Ht')) at 1. apply with_enabled_id. }
+  assert (Etask : task_of m t' = m_tasks m t').
+  { unfold task_of. rewrite He. rewrite <- (Hall t') at 1. apply with_enabled_id. }
   rewrite Etask.
-  pose proof (std_step_enabled c (nth t' (m_tasks m) (st0 c)) r Hns) as Een.
-  destruct (std_step c (nth t' (m_tasks m) (st0 c)) r) as [s' o] eqn:Es. cbn [fst] in Een.
-  assert (En' : enabled s' = true).
-  { rewrite Een. rewrite Forall_forall in Hall. apply Hall. apply nth_In. exact Ht'. }
+  pose proof (std_step_enabled c (m_tasks m t') r Hns) as Een.
+  destruct (std_step c (m_tasks m t') r) as [s' o] eqn:Es. cbn [fst] in Een.
+  assert (En' : enabled s' = true) by (rewrite Een; apply Hall).
   set (m' := put_task m t' s').
   assert (Hon' : all_on m').
-  { unfold all_on, m', put_task. cbn [m_enabled m_tasks]. split; [exact En'|]. apply Forall_upd; assumption. }
-  assert (Hlen : length (m_tasks m') = length (m_tasks m)) by (unfold m', put_task; cbn [m_tasks]; apply length_upd).
-  specialize (IH m' t Hon'). rewrite Hlen in IH. specialize (IH Hidx' Ht).
+  { unfold all_on, m', put_task. cbn [m_enabled m_tasks]. split; [exact En'|].
+    intro t0. destruct (Nat.eqb t0 t'); [exact En'|apply Hall]. }
+  specialize (IH m' t Hon').
   destruct (m_run (m_std_step c) m' trs) as [m2 o2]. cbn [snd] in *.
   unfold tev in *. rewrite of_task_app, of_task_pair, IH.
-  unfold m', put_task. cbn [m_tasks]. rewrite (nth_upd (m_tasks m) t' t s' (st0 c) Ht').
-  unfold of_task at 2. cbn [filter fst]. rewrite (Nat.eqb_sym t t').
+  unfold of_task at 2. cbn [filter fst].
   destruct (Nat.eqb t' t) eqn:E.
   - apply Nat.eqb_eq in E. subst t'. cbn [map snd run_steps]. rewrite Es.
+    unfold m', put_task. cbn [m_tasks]. rewrite Nat.eqb_refl.
     fold (@of_task rec t trs). destruct (run_steps (std_step c) s' (of_task t trs)). reflexivity.
-  - reflexivity.
+  - unfold m', put_task. cbn [m_tasks]. rewrite (Nat.eqb_sym t t'), E. reflexivity.
 Qed.
-
-Lemma length_repeat_st c n : length (m_tasks (m_init c n)) = n.
-Proof. unfold m_init. cbn [m_tasks]. apply repeat_length. Qed.
 
 Theorem tasks_independent c ss t : no_switch_all c -> (t < length ss)%nat ->
   of_task t (run_std_m c ss) = run_std c (nth t ss []).
 Proof.
   intros Hns Ht. unfold run_std_m, run_std, merged.
   set (ps := map (pre c) ss).
-  destruct (merge_task (total_len ps) ps t (le_n _)) as [M1 M2].
-  assert (Hl : length ps = length ss) by (unfold ps; apply map_length).
-  rewrite (std_independent c Hns (merge (total_len ps) ps) (m_init c (length ss)) t).
-  - rewrite M1. unfold ps. unfold m_init. cbn [m_tasks].
-    rewrite (nth_indep _ [] (pre c []) ) by (rewrite map_length; exact Ht).
-    rewrite map_nth.
-    replace (nth t (repeat (st0 c) (length ss)) (st0 c)) with (st0 c); [reflexivity|].
-    clear. generalize (length ss). intro n. revert t. induction n; intros [|t]; cbn; auto.
-  - unfold all_on, m_init. cbn [m_enabled m_tasks]. split; [reflexivity|]. apply Forall_forall.
-    intros s Hs. apply repeat_spec in Hs. subst s. reflexivity.
-  - rewrite length_repeat_st, <- Hl. exact M2.
-  - rewrite length_repeat_st. exact Ht.
+  destruct (merge_task (total_len ps) ps t (le_n _)) as [M1 _].
+  rewrite (std_independent c Hns (merge (total_len ps) ps) (m_init c) t).
+  - rewrite M1. unfold ps, m_init. cbn [m_tasks].
+    rewrite (nth_indep _ [] (pre c [])) by (rewrite map_length; exact Ht).
+    rewrite map_nth. reflexivity.
+  - unfold all_on, m_init. cbn [m_enabled m_tasks]. split; [reflexivity|]. intro; reflexivity.
 Qed.
 
 (* every task shows the documented selection of its own forest *)
@@ -202,8 +181,8 @@ Lemma m_rp_nomerge_step c m tr : plt_free_all c -> no_merge c = true ->
   m_rp_step c (m, MNormal) tr = (let '(m', o) := m_std_step c m tr in ((m', MNormal), o)).
 Proof.
   intros Hp Hm. destruct tr as [t r]. cbn [m_rp_step]. unfold m_rp_normal, m_std_step.
-  pose proof (rp_nomerge_step c (task_of c m t) r Hp Hm) as E. cbn [rp_step] in E. rewrite E.
-  destruct (std_step c (task_of c m t) r) as [s' o]. reflexivity.
+  pose proof (rp_nomerge_step c (task_of m t) r Hp Hm) as E. cbn [rp_step] in E. rewrite E.
+  destruct (std_step c (task_of m t) r) as [s' o]. reflexivity.
 Qed.
 Theorem nomerge_multi c ss : plt_free_all c -> no_merge c = true -> run_rp_m c ss = run_std_m c ss.
 Proof.
@@ -212,5 +191,5 @@ Proof.
                             = (let '(m', o) := m_run (m_std_step c) m trs in ((m', MNormal), o))).
   { induction trs as [|tr trs IH]; intro m; [reflexivity|]. cbn [m_run]. rewrite (m_rp_nomerge_step c m tr Hp Hm).
     destruct (m_std_step c m tr) as [m1 o1]. rewrite IH. destruct (m_run (m_std_step c) m1 trs). reflexivity. }
-  rewrite E. destruct (m_run (m_std_step c) (m_init c (length ss)) (merged c ss)) as [m o]. cbn. apply app_nil_r.
+  rewrite E. destruct (m_run (m_std_step c) (m_init c) (merged c ss)) as [m o]. cbn. apply app_nil_r.
 Qed.
